@@ -423,6 +423,10 @@ func (f *frame) loopHeader(b *ssa.BasicBlock, li *loopInfo, st *bstate, ins []in
 		vc.assert(fmt.Sprintf("(>= %s %s)", na, st.alloc))
 		st.alloc = na
 	}
+	if f.loopAlloc == nil {
+		f.loopAlloc = map[*ssa.BasicBlock]string{}
+	}
+	f.loopAlloc[b] = st.alloc
 	for _, in := range b.Instrs {
 		phi, ok := in.(*ssa.Phi)
 		if !ok {
